@@ -5,8 +5,10 @@
 (* models (k up to 31 for the graph, up to 64 for the index on 64/128/256  *)
 (* bit words, sequences of tens to hundreds of bases):                     *)
 (*  kind "idx"   NewKmerMap[T](k, sparse) + NormalizedKmerSlice on s and   *)
-(*               on its reverse complement r; keys = the returned words as *)
-(*               tuples of bits/2 base-4 digits, strs = KmerAsString       *)
+(*               on its reverse complement r; keys/rkeys = the low k       *)
+(*               base-4 digits of the returned words, stray = number of    *)
+(*               non-zero digits above them, strs = KmerAsString of the    *)
+(*               keys of index si (a c g t = 0..3, '#' = 4)                *)
 (*  kind "four"  Count4Mer(s): the non-zero entries <<code, count>>        *)
 (*  kind "graph" MakeDeBruijnGraph(k), Push of every (S[i], C[i]); Len,    *)
 (*               Weight of probed k-mers P (weights PW), HasCycle,         *)
@@ -26,18 +28,22 @@ Trace == ndJsonDeserialize(IOEnv.VERIF_TRACE)
 
 RangeOf(q) == {q[i] : i \in 1..Len(q)}
 
+(* KmerAsString with letters as digits and '#' as 4 *)
+KeyStringDigits(key, sparse) ==
+  LET q == KeyString(key, sparse) IN [i \in 1..Len(q) |-> IF q[i] = "#" THEN 4 ELSE CHOOSE d \in NucDigits : DigitLetter(d) = q[i]]
+
 VerdictIdx(ev) ==
   LET sparse == ev.sp = 1
-      WLd    == ev.bits \div 2
       want   == CanonKmers(ev.s, ev.k, sparse)
       rwant  == CanonKmers(ev.r, ev.k, sparse)
   IN IF ev.r # KmerRevCompSeq(ev.s) THEN "harness_bad_revcomp"
      ELSE IF ev.pan = 1 THEN "index_panic"
      ELSE IF KmerBag(ev.keys) # KmerBag(ev.rkeys) THEN "strand_invariance"
      ELSE IF Len(ev.keys) # Len(want) \/ Len(ev.rkeys) # Len(rwant) THEN "index_count"
-     ELSE IF \E j \in 1..Len(want) : ev.keys[j] # WPad(want[j], WLd) THEN "canonical_key"
-     ELSE IF \E j \in 1..Len(rwant) : ev.rkeys[j] # WPad(rwant[j], WLd) THEN "canonical_key"
-     ELSE IF \E j \in 1..Len(want) : ev.strs[j] # KeyString(want[j], sparse) THEN "key_string"
+     ELSE IF ev.stray # 0 THEN "canonical_key"                 \* non-zero digits above the k-mer
+     ELSE IF \E j \in 1..Len(want) : ev.keys[j] # WPad(want[j], ev.k) THEN "canonical_key"
+     ELSE IF \E j \in 1..Len(rwant) : ev.rkeys[j] # WPad(rwant[j], ev.k) THEN "canonical_key"
+     ELSE IF \E i \in 1..Len(ev.si) : ev.strs[i] # KeyStringDigits(want[ev.si[i]], sparse) THEN "key_string"
      ELSE "ok"
 
 VerdictFour(ev) ==
